@@ -176,6 +176,85 @@ theorem tcgFull_ge_first_pass (P : Prob n K) (hW : WF P) (hH : P.H.IsSymm) (Q : 
     exact le_trans h2 h1
   · exact h1
 
+/-- **the first pass IS the Cauchy step, with no hypothesis on the two relative-reduction exits**: at the first pass
+`reduct = 0`, so those exits fire only when the Cauchy step length is zero, and then both sides are the zero vector.
+The only remaining hypotheses: a free variable exists, the descent test passes (its failure on tiny gradients is the
+known finding) and `_alpha_tr` answers. -/
+theorem firstPass_is_cauchy (P : Prob n K) (hW : WF P) (Q : Params n K) (hQ : QOK P Q) (hT : Q.tiny = 0)
+    (hfree : (init P).k < (Finset.univ.filter fun i => (init P).free i = true).card)
+    (hdesc : ¬ ((init P).grad ⬝ᵥ (init P).sd ≥ -Q.descThr (fun i => if (init P).free i then (init P).grad i else 0)))
+    (aTr : K) (hat : Q.aTr (init P).step (init P).sd = some aTr) :
+    (firstPass P Q).step =
+      (capAll P Q (init P) (alpha0Of Q aTr ((init P).grad ⬝ᵥ (init P).sd) ((init P).sd ⬝ᵥ P.H *ᵥ (init P).sd))) • (init P).sd := by
+  have hA := init_invA P hW (sq_nonneg _)
+  obtain ⟨hat0, hatb⟩ := hQ.atr _ _ aTr hA.ball hat
+  have hgneg : (init P).grad ⬝ᵥ (init P).sd < 0 := by
+    have := hQ.thr (fun i => if (init P).free i then (init P).grad i else 0)
+    have h2 := not_le.mp hdesc
+    linarith
+  obtain ⟨a0, a1⟩ := alpha0Of_spec Q aTr ((init P).grad ⬝ᵥ (init P).sd) ((init P).sd ⬝ᵥ P.H *ᵥ (init P).sd) hat0
+  obtain ⟨c0, c1, c2, c3⟩ := capAll_spec P Q (init P) _ a0
+  have hred : (init P).reduct = 0 := rfl
+  have hstep0 : (init P).step = 0 := rfl
+  -- when an exit fires, the state is `init P` and the Cauchy step length is zero
+  have zero_case : alpha0Of Q aTr ((init P).grad ⬝ᵥ (init P).sd) ((init P).sd ⬝ᵥ P.H *ᵥ (init P).sd) = 0 →
+      (0 : Fin n → K) = (capAll P Q (init P) (alpha0Of Q aTr ((init P).grad ⬝ᵥ (init P).sd) ((init P).sd ⬝ᵥ P.H *ᵥ (init P).sd))) • (init P).sd := by
+    intro h0
+    have : capAll P Q (init P) (alpha0Of Q aTr ((init P).grad ⬝ᵥ (init P).sd) ((init P).sd ⬝ᵥ P.H *ᵥ (init P).sd)) = 0 :=
+      le_antisymm (le_trans c1 (le_of_eq h0)) c0
+    rw [this, zero_smul]
+  by_cases h1 : -aTr * ((init P).grad ⬝ᵥ (init P).sd) ≤ Q.rtol * (init P).reduct
+  · -- `aTr = 0`
+    rw [hred, mul_zero] at h1
+    have haz : aTr = 0 := by nlinarith
+    have hal : alpha0Of Q aTr ((init P).grad ⬝ᵥ (init P).sd) ((init P).sd ⬝ᵥ P.H *ᵥ (init P).sd) = 0 :=
+      le_antisymm (le_trans a1 (le_of_eq haz)) a0
+    have hit : iter P Q (init P) = .inr (init P) := by
+      unfold iter
+      simp only [hdesc, if_false, hat]
+      rw [if_pos (by rw [hred, mul_zero]; exact h1)]
+    unfold firstPass
+    rw [if_pos hfree, hit]
+    simp only
+    rw [hstep0]
+    exact zero_case hal
+  · by_cases h2 : -(alpha0Of Q aTr ((init P).grad ⬝ᵥ (init P).sd) ((init P).sd ⬝ᵥ P.H *ᵥ (init P).sd)) *
+        (((init P).grad ⬝ᵥ (init P).sd) + 1 / 2 * (alpha0Of Q aTr ((init P).grad ⬝ᵥ (init P).sd) ((init P).sd ⬝ᵥ P.H *ᵥ (init P).sd)) *
+          ((init P).sd ⬝ᵥ P.H *ᵥ (init P).sd)) ≤ Q.rtol * (init P).reduct
+    · have hbr : ((init P).grad ⬝ᵥ (init P).sd) + 1 / 2 * (alpha0Of Q aTr ((init P).grad ⬝ᵥ (init P).sd) ((init P).sd ⬝ᵥ P.H *ᵥ (init P).sd)) *
+          ((init P).sd ⬝ᵥ P.H *ᵥ (init P).sd) < 0 := by
+        by_cases hc : 0 < (init P).sd ⬝ᵥ P.H *ᵥ (init P).sd
+        · have hle : alpha0Of Q aTr ((init P).grad ⬝ᵥ (init P).sd) ((init P).sd ⬝ᵥ P.H *ᵥ (init P).sd) ≤
+              -((init P).grad ⬝ᵥ (init P).sd) / ((init P).sd ⬝ᵥ P.H *ᵥ (init P).sd) := by
+            unfold alpha0Of
+            rw [hT, zero_mul, if_pos hc]
+            have hpos : 0 ≤ -((init P).grad ⬝ᵥ (init P).sd) / ((init P).sd ⬝ᵥ P.H *ᵥ (init P).sd) := div_nonneg (by linarith) hc.le
+            rw [max_eq_left hpos]
+            exact min_le_right _ _
+          have := mul_le_mul_of_nonneg_right hle hc.le
+          rw [div_mul_cancel₀ _ (ne_of_gt hc)] at this
+          linarith
+        · have hc' := not_lt.mp hc
+          have := mul_nonneg a0 (neg_nonneg.mpr hc')
+          nlinarith
+      rw [hred, mul_zero] at h2
+      have hal : alpha0Of Q aTr ((init P).grad ⬝ᵥ (init P).sd) ((init P).sd ⬝ᵥ P.H *ᵥ (init P).sd) = 0 := by
+        refine le_antisymm ?_ a0
+        by_contra hpos
+        have hpos' := not_le.mp hpos
+        have := mul_pos hpos' (neg_pos.mpr hbr)
+        nlinarith
+      have hit : iter P Q (init P) = .inr (init P) := by
+        unfold iter
+        simp only [hdesc, if_false, hat, h1]
+        rw [if_pos (by rw [hred, mul_zero]; exact h2)]
+      unfold firstPass
+      rw [if_pos hfree, hit]
+      simp only
+      rw [hstep0]
+      exact zero_case hal
+    · exact firstPass_step P hW Q hQ hT hfree hdesc aTr hat h1 h2
+
 /-! ### non-vacuity -/
 
 /-- witness problem: one variable, `q(s) = -s + s²/2` on `[-2, 2]`, radius 1 -/
